@@ -388,7 +388,8 @@ func (tx *Transaction) AddRequestHeader(key string, value string) {
 	switch keyl {
 	case "content-type":
 		val := strings.ToLower(value)
-		if val == "application/x-www-form-urlencoded" {
+		// the media type may carry parameters (application/x-www-form-urlencoded; charset=UTF-8)
+		if mt, _, _ := strings.Cut(val, ";"); strings.TrimSpace(mt) == "application/x-www-form-urlencoded" {
 			tx.variables.reqbodyProcessor.Set("URLENCODED")
 		} else if strings.HasPrefix(val, "multipart/form-data") {
 			tx.variables.reqbodyProcessor.Set("MULTIPART")
